@@ -97,6 +97,9 @@ def imresize(img, nsize, order=3):
     from .interpolate import zoom
     if type(nsize) == tuple or type(nsize) == list:
         if type(nsize[0]) == int:
+            # allocate the output explicitly: int(s * (n/s)) can be n-1
+            out = np.empty(nsize, dtype=np.float64)
             nsize = np.array(nsize, dtype=float)
             nsize /= img.shape
+            return zoom(img, nsize, order=order, out=out)
     return zoom(img, nsize, order=order)
